@@ -11,6 +11,7 @@ import (
 	"strings"
 	"syscall"
 	"testing"
+	"time"
 
 	"github.com/tetratelabs/wazero"
 	"pgregory.net/rapid"
@@ -61,7 +62,30 @@ func wpopulate(dir string) error {
 			return err
 		}
 	}
+	// fixed timestamps, so that a timestamp change made through another guest's descriptor shows
+	for _, f := range []string{"a", "b", "d/x", "d", "."} {
+		if err := os.Chtimes(filepath.Join(dir, f), wInitialTime, wInitialTime); err != nil {
+			return err
+		}
+	}
 	return nil
+}
+
+var wInitialTime = time.Unix(1_000_000_000, 0)
+
+// wTimes are the timestamps (ns) guests set explicitly.
+var wTimes = []int64{1_500_000_000_000_000_000, 1_600_000_000_000_000_000, 1_700_000_000_123_456_789}
+
+func wTimeName(ns uint64) string {
+	if int64(ns) == wInitialTime.UnixNano() {
+		return "initial"
+	}
+	for i, v := range wTimes {
+		if int64(ns) == v {
+			return fmt.Sprintf("set%d", i)
+		}
+	}
+	return "other" // a time taken from the host clock when an entry was created or written
 }
 
 func newGuest(ctx context.Context, rt wazero.Runtime, base string, i int, shared *os.File) (*wguest, error) {
@@ -125,7 +149,7 @@ func ino(v uint64) string { return fmt.Sprintf("ino{%d}", v) }
 
 func (g *wguest) filestat(off uint32) string {
 	ft, _ := g.p.Mem.ReadByte(off + 16)
-	return fmt.Sprintf("type=%d size=%d %s", ft, g.u64(off+32), ino(g.u64(off+8)))
+	return fmt.Sprintf("type=%d size=%d mtim=%s %s", ft, g.u64(off+32), wTimeName(g.u64(off+48)), ino(g.u64(off+8)))
 }
 
 // do executes one op and appends its trace line.
@@ -184,6 +208,13 @@ func (g *wguest) do(ctx context.Context, op WOp) string {
 	case "mkdir":
 		pp, pl := g.putPath(op.S)
 		e, o = p.Call(ctx, "path_create_directory", 3, pp, pl)
+		line(e, o, "")
+	case "settimes":
+		e, o = p.Call(ctx, "fd_filestat_set_times", uint64(op.A), uint64(wTimes[op.B%int64(len(wTimes))]), uint64(wTimes[op.C%int64(len(wTimes))]), 1|4)
+		line(e, o, "")
+	case "pathsettimes":
+		pp, pl := g.putPath(op.S)
+		e, o = p.Call(ctx, "path_filestat_set_times", 3, 1, pp, pl, uint64(wTimes[op.B%int64(len(wTimes))]), uint64(wTimes[op.C%int64(len(wTimes))]), 1|4)
 		line(e, o, "")
 	case "filestat":
 		e, o = p.Call(ctx, "fd_filestat_get", uint64(op.A), wRes+64)
@@ -412,7 +443,7 @@ func genWOp(t *rapid.T, n int) WOp {
 	fd := func() int64 { return int64(rapid.IntRange(0, 7).Draw(t, "fd")) }
 	dfd := func() int64 { return int64(rapid.SampledFrom([]int{3, 3, 3, 4, 5, 6}).Draw(t, "dirfd")) }
 	op.K = rapid.SampledFrom([]string{"open", "open", "open", "read", "read", "write", "write", "seek", "tell", "close", "renumber", "mkdir",
-		"filestat", "pathstat", "fdstat", "prestat", "clock", "random", "args", "environ", "readdir", "readdir", "readdir", "readdir", "closemod"}).Draw(t, "k")
+		"filestat", "filestat", "pathstat", "pathstat", "settimes", "settimes", "pathsettimes", "fdstat", "prestat", "clock", "random", "args", "environ", "readdir", "readdir", "readdir", "readdir", "closemod"}).Draw(t, "k")
 	switch op.K {
 	case "open":
 		op.S = rapid.SampledFrom(wPaths).Draw(t, "path")
@@ -427,6 +458,11 @@ func genWOp(t *rapid.T, n int) WOp {
 		op.A, op.B, op.C = fd(), int64(rapid.IntRange(-3, 9).Draw(t, "off")), int64(rapid.IntRange(0, 2).Draw(t, "whence"))
 	case "tell", "close", "filestat", "fdstat", "prestat":
 		op.A = fd()
+	case "settimes":
+		op.A, op.B, op.C = fd(), int64(rapid.IntRange(0, 2).Draw(t, "atim")), int64(rapid.IntRange(0, 2).Draw(t, "mtim"))
+	case "pathsettimes":
+		op.S = rapid.SampledFrom(wPaths).Draw(t, "path")
+		op.B, op.C = int64(rapid.IntRange(0, 2).Draw(t, "atim")), int64(rapid.IntRange(0, 2).Draw(t, "mtim"))
 	case "renumber":
 		op.A, op.B = fd(), int64(rapid.IntRange(4, 9).Draw(t, "to"))
 	case "mkdir":
@@ -456,7 +492,7 @@ func propWasi(t *rapid.T) {
 			// the file behind fd 1 is shared by the embedder's choice: its offset and size depend on
 			// the other guests' writes; only writing, closing and fdstat are independent of them
 			switch op.K {
-			case "tell", "seek", "filestat", "read", "renumber":
+			case "tell", "seek", "filestat", "read", "renumber", "settimes":
 				continue
 			}
 		}
